@@ -10,6 +10,14 @@ Definition all_flat (l : list (string * list prog)) : bool :=
 Lemma lockprogs_flat_l : all_flat lockprogs = true.
 Proof. vm_compute. reflexivity. Qed.
 
+(* a bundle that shares token objects with the one it was derived from (Select) must share its lock,
+   so that the safety theorem covers the whole family of derived bundles *)
+Definition derived_share_lock (l : list (string * bool * bool)) : bool :=
+  forallb (fun x => implb (snd (fst x)) (snd x)) l.
+
+Lemma derived_share_lock_l : derived_share_lock bundle_literals = true.
+Proof. vm_compute. reflexivity. Qed.
+
 Definition all_paths : list prog := flat_map snd lockprogs.
 
 Lemma all_paths_flat : Forall (fun p => flat_out p = true) all_paths.
